@@ -8,13 +8,13 @@ from ..scripted import enumerate_runs, BranchExplosion
 
 LEVEL = 'proof'
 META = dict(
-    text='Coq theorems: every library channel (bit/phase flip, (asymmetric) depolarize, amplitude, generalized amplitude and phase damping, reset) is trace preserving for all parameter values (sum K^dagger K = I as ring identities in the amplitude parameters), the Kraus evolution preserves the trace of every 2x2 matrix, measurement branches carry the whole mass, the density-operator reference semantics is the ensemble reference semantics averaged (for every operation list and register shape: the final density operator is the weighted sum of the outer products of the pure branches), and the constant-noise-model moment transformer adds exactly one noise moment per non-virtual moment. On every run: Cirq\'s Kraus/mixture/superoperator/Choi descriptions are compared with the documented Kraus operators evaluated in Coq; the density-matrix simulator\'s final state (all measurement branches enumerated) and the state-vector simulator\'s trajectories (all Kraus branches enumerated through a scripted seed, weighted by the probability Cirq assigned) are compared with the reference ensemble; noise-model simulation is compared with the model of the circuit the noise model produces; multi-qubit channels without qubit-exchange symmetry are applied to every ordered choice of target qubits (ascending, descending and merged axes) in both simulators; cirq.kraus(moment), Moment._superoperator_ and Circuit._superoperator_ applied to a generic pure state are compared with the reference semantics of the operations for every storage order of the moment\'s operations.',
-    note='Trusted: Coq kernel; docstring transcription of the Kraus operators (Gates/Channels.v); float instance (tolerance 2e-6); the scripted seed standing for numpy.random; numpy for the Choi/superoperator inversion oracles and the eigenvalue (positivity) check. Thermal/device-derived noise models are not generated.',
+    text='Coq theorems: every library channel (bit/phase flip, (asymmetric) depolarize, amplitude, generalized amplitude and phase damping, reset) is trace preserving for all parameter values (sum K^dagger K = I as ring identities in the amplitude parameters), the Kraus evolution preserves the trace of every 2x2 matrix, measurement branches carry the whole mass, the density-operator reference semantics is the ensemble reference semantics averaged (for every operation list and register shape: the final density operator is the weighted sum of the outer products of the pure branches), and the constant-noise-model moment transformer adds exactly one noise moment per non-virtual moment. On every run: Cirq\'s Kraus/mixture/superoperator/Choi descriptions are compared with the documented Kraus operators evaluated in Coq; the density-matrix simulator\'s final state (all measurement branches enumerated) and the state-vector simulator\'s trajectories (all Kraus branches enumerated through a scripted seed, weighted by the probability Cirq assigned) are compared with the reference ensemble; noise-model simulation is compared with the model of the circuit the noise model produces; multi-qubit channels without qubit-exchange symmetry are applied to every ordered choice of target qubits (ascending, descending and merged axes) in both simulators; cirq.kraus(moment), Moment._superoperator_ and Circuit._superoperator_ applied to a generic pure state are compared with the reference semantics of the operations for every storage order of the moment\'s operations; the Choi matrix computed from Kraus operators is proved (two generic single-qubit Kraus operators) to be the matrix of the definition sum_ij E(|i><j|) (x) |i><j|, the reshuffled superoperator, Hermitian, and to act as the Kraus operators do, and cirq.kraus_to_choi / operation_to_choi / superoperator_to_choi and the superoperator entry points are compared with it on channels with complex entries (phase gates, x-rotations, compositions, dense random Kraus sets, two-qubit gates, products); noise models whose output depends on the whole moment sequence (user models defined by noisy_moments: position, following moment, history, pairs; ThermalNoiseModel and NoiseModelFromNoiseProperties) are simulated through Circuit.with_noise, DensityMatrixSimulator(noise=) and cirq.final_density_matrix(noise=) and compared with the reference semantics of the circuit the model produces for the whole sequence, with the Gallina list model of a position-dependent model, and with the rate equation of the thermal Lindbladians.',
+    note='Trusted: Coq kernel; docstring transcription of the Kraus operators (Gates/Channels.v); float instance (tolerance 2e-6); the scripted seed standing for numpy.random; numpy for the Choi/superoperator inversion oracles and the eigenvalue (positivity) check. Thermal models: the Kraus operators come from Cirq (only the populations are checked against an independent rate equation); cirq_google device-derived noise properties are not generated.',
     technique='Rocq/Coq proof of trace preservation for the channel library + exact branch enumeration of both simulators compared with the reference ensemble by vm_compute',
 )
 
 TOL = '0x1p-19'
-PRE = gates.COQ_HEADER + 'From VF Require Import Sim.Ref Sim.Measure Gates.Channels Sim.Noise.\n' + '''
+PRE = gates.COQ_HEADER + 'From VF Require Import Sim.Ref Sim.Measure Gates.Channels Gates.Choi Sim.Noise Sim.NoiseSeq.\n' + '''
 Fixpoint fclll_close (tol : float) (a b : list (list (list FC))) : bool :=
   match a, b with
   | [], [] => true
@@ -32,6 +32,9 @@ def run(ctx):
                 'mixing unitaries, every library channel, resets and measurements: DensityMatrixSimulator and Simulator trajectories with every '
                 'branch enumerated; constant noise models; a fixed grid of asymmetric 2-/3-qubit Kraus and mixture channels on every ordered target tuple x qubit order x split option x '
                 'entangled/product preparation; a fixed grid of moments in every storage order (Kraus / superoperator descriptions of moments and circuits on a generic state); '
+                'a fixed pool of channels with complex Choi/superoperator entries (Choi and superoperator entry points vs the Gallina definitions; non-trivial = complex Choi matrix); '
+                'a fixed grid of sequence-dependent noise models (4 noisy_moments-defined user models, noisy_moment-/noisy_operation-defined ones, ThermalNoiseModel, '
+                'NoiseModelFromNoiseProperties) x circuits with idling qubits x three simulation entry points; '
                 'non-trivial = >=1 channel with >=2 branches of non-zero weight; distinct by circuit text')
     ctx.assumptions += ['float tolerance 2e-6', 'scripted seed stands for numpy.random']
     ctx.set_obligations(coq.compile_props('C09'))
@@ -44,6 +47,8 @@ def run(ctx):
     mux_noise_stream(ctx, cirq, checks, 40 * n)
     kraus_axes_grid(ctx, cirq, checks, n)
     moment_description_grid(ctx, cirq, checks, n)
+    description_conversion_grid(ctx, cirq, checks, n)
+    sequence_noise_grid(ctx, cirq, checks, n)
     evaluate(ctx, checks)
 
 
@@ -99,6 +104,8 @@ def conversion_oracles(cirq, ch, ks, rng):
     if not np.allclose((sup @ rho.reshape(-1)).reshape(d, d), want, atol=1e-8):
         bad.append('superoperator does not act as sum K rho K^dagger')
     choi = cirq.kraus_to_choi(ks)
+    if not np.allclose(choi, reference_choi(ks), atol=1e-8):
+        bad.append('kraus_to_choi is not sum_ij E(|i><j|) (x) |i><j|')
     if not np.allclose(cirq.choi_to_superoperator(choi), sup, atol=1e-8) or not np.allclose(cirq.superoperator_to_choi(sup), choi, atol=1e-8):
         bad.append('choi <-> superoperator conversions are not mutually inverse')
     for nm, back in (('superoperator_to_kraus', cirq.superoperator_to_kraus(sup)), ('choi_to_kraus', cirq.choi_to_kraus(choi))):
@@ -113,6 +120,18 @@ def conversion_oracles(cirq, ch, ks, rng):
     if not np.allclose(sum(k.conj().T @ k for k in ks), np.eye(d), atol=1e-8):
         bad.append('not trace preserving')
     return bad
+
+
+def reference_choi(ks):
+    """The Choi matrix from its definition J = sum_ij E(|i><j|) (x) |i><j| (E applied through the Kraus operators)."""
+    d = ks[0].shape[1]
+    out = 0
+    for i in range(d):
+        for j in range(d):
+            e = np.zeros((d, d), dtype=complex)
+            e[i, j] = 1
+            out = out + np.kron(apply_kraus(ks, e), e)
+    return out
 
 
 def valid_density(rho, atol=1e-6):
@@ -609,6 +628,309 @@ def moment_description_grid(ctx, cirq, checks, reps):
                                  cirq.Moment(cirq.CNOT(qs[i + 1], qs[i]) for i in range(0, n - 1, 2)),
                                  cirq.Moment(gs[i].on(qs[i]) for i in perm))
                 superoperator_case(ctx, cirq, checks, c, rng, 'stored-out-of-order', flat(c))
+
+
+def compose_kraus(later, earlier):
+    """Kraus operators of `later` applied after `earlier`."""
+    return [np.asarray(b) @ np.asarray(a) for b in later for a in earlier]
+
+
+def conversion_pool(cirq, rng):
+    """Channels whose descriptions have genuinely COMPLEX entries (phase-type unitaries, x-rotations, channels composed with them, dense
+    random Kraus sets, two-qubit gates and product channels) next to real ones: (name, gate on 1 or 2 qubits)."""
+    t, th, g, p = round(rng.uniform(0.1, 0.9), 3), round(rng.uniform(0.3, 2.8), 3), round(rng.uniform(0.1, 0.9), 3), round(rng.uniform(0.05, 0.45), 3)
+    K = cirq.kraus
+    one = [('S', cirq.S), ('T', cirq.T), (f'Z**{t}', cirq.Z ** t), (f'rx({th})', cirq.rx(th)), (f'ry({th})', cirq.ry(th)), ('H', cirq.H),
+           (f'Y**{t}', cirq.Y ** t), (f'PhasedXPow({t},{g})', cirq.PhasedXPowGate(phase_exponent=t, exponent=g)),
+           (f'amplitude_damp({g}) after S after H', cirq.KrausChannel(compose_kraus(K(cirq.amplitude_damp(g)), compose_kraus(K(cirq.S), K(cirq.H))))),
+           (f'depolarize({p}) after rx({th})', cirq.KrausChannel(compose_kraus(K(cirq.depolarize(p)), K(cirq.rx(th))))),
+           (f'T after phase_damp({g}) after ry({th})', cirq.KrausChannel(compose_kraus(K(cirq.T), compose_kraus(K(cirq.phase_damp(g)), K(cirq.ry(th)))))),
+           ('random-kraus(2 operators)', cirq.KrausChannel(random_kraus_set(rng, 2, 2))),
+           ('random-kraus(3 operators)', cirq.KrausChannel(random_kraus_set(rng, 3, 2))),
+           (f'mixture I/S/rx', cirq.MixedUnitaryChannel([(0.5, np.eye(2)), (0.3, cirq.unitary(cirq.S)), (0.2, cirq.unitary(cirq.rx(th)))]))]
+    two = [('sqrt(ISWAP)', cirq.ISWAP ** 0.5), (f'CZ**{t}', cirq.CZ ** t), ('CNOT', cirq.CNOT), (f'FSim({th},{t})', cirq.FSimGate(th, t)),
+           ('random-kraus(3 operators, 2 qubits)', cirq.KrausChannel(random_kraus_set(rng, 3, 4))),
+           (f'(depolarize({p}) after rx({th})) (x) bit_flip({p})',
+            cirq.KrausChannel([np.kron(a, b) for a in compose_kraus(K(cirq.depolarize(p)), K(cirq.rx(th))) for b in K(cirq.bit_flip(p))])),
+           (f'amplitude_damp({g}) (x) S', cirq.KrausChannel([np.kron(a, cirq.unitary(cirq.S)) for a in K(cirq.amplitude_damp(g))]))]
+    return one + two
+
+
+def description_conversion_grid(ctx, cirq, checks, reps):
+    """Kraus -> Choi / superoperator descriptions (gate-level and operation-level entry points) of channels with complex entries against the
+    Gallina definitions evaluated on the Kraus operators (Gates/Choi.v: sum_k vec(K) vec(K)^dagger, proved equal to the defining formula,
+    to the reshuffled superoperator, and to act as the Kraus operators do), plus the numpy conversion oracles (all descriptions act
+    identically on a random matrix, conversions invert each other).  The pool is the same for every seed; only parameters are random."""
+    rng = ctx.rng
+    for rep in range(reps):
+        for name, gate in conversion_pool(cirq, rng):
+            nq = cirq.num_qubits(gate)
+            d = 2 ** nq
+            op = gate.on(*cirq.LineQubit.range(nq))
+            ks = [np.asarray(k, dtype=complex) for k in cirq.kraus(gate)]
+            lit = kraus_lit(ks)
+            complex_choi = bool(np.abs(reference_choi(ks).imag).max() > 1e-3)
+            rep_d = dict(channel=name, gate=flat(gate))
+            for entry, fn in (('cirq.kraus_to_choi', lambda: cirq.kraus_to_choi(ks)), ('cirq.operation_to_choi', lambda: cirq.operation_to_choi(op)),
+                              ('cirq.superoperator_to_choi(kraus_to_superoperator)', lambda: cirq.superoperator_to_choi(cirq.kraus_to_superoperator(ks)))):
+                try:
+                    got = np.asarray(fn())
+                except Exception as e:
+                    ctx.violation(f'description:{entry}:raises', f'{entry} raised {type(e).__name__}: {e} for {name}: {flat(gate)}', dict(kind='description', **rep_d))
+                    continue
+                ctx.count('description:' + entry, [name, entry], complex_choi, sample=dict(channel=name, entry=entry, complex_entries=complex_choi))
+                checks.append(('description:' + entry, f'fcll_close {TOL} (kraus_choi FOps {d * d} {lit}) {gates.fmat(got)}',
+                               f'{entry} of {name} is not the Choi matrix sum_k vec(K_k) vec(K_k)^dagger = sum_ij E(|i><j|) (x) |i><j| of its Kraus operators '
+                               f'(gate: {flat(gate)})', dict(signature=f'description:{entry}:{"complex" if complex_choi else "real"}', **rep_d)))
+            for entry, fn in (('cirq.kraus_to_superoperator', lambda: cirq.kraus_to_superoperator(ks)),
+                              ('cirq.operation_to_superoperator', lambda: cirq.operation_to_superoperator(op)),
+                              ('cirq.choi_to_superoperator(kraus_to_choi)', lambda: cirq.choi_to_superoperator(cirq.kraus_to_choi(ks)))):
+                try:
+                    got = np.asarray(fn())
+                except Exception as e:
+                    ctx.violation(f'description:{entry}:raises', f'{entry} raised {type(e).__name__}: {e} for {name}: {flat(gate)}', dict(kind='description', **rep_d))
+                    continue
+                ctx.count('description:' + entry, [name, entry], complex_choi, sample=dict(channel=name, entry=entry, complex_entries=complex_choi))
+                checks.append(('description:' + entry, f'fcll_close {TOL} (kraus_superop FOps {d * d} {lit}) {gates.fmat(got)}',
+                               f'{entry} of {name} is not the superoperator sum_k K_k (x) conj K_k of its Kraus operators (gate: {flat(gate)})',
+                               dict(signature=f'description:{entry}:{"complex" if complex_choi else "real"}', **rep_d)))
+            bad = conversion_oracles(cirq, gate, ks, rng)
+            if bad:
+                ctx.violation(f'conversions:{"complex" if complex_choi else "real"}:{bad[0]}', f'{name} ({flat(gate)}): ' + '; '.join(bad),
+                              dict(kind='description', **rep_d))
+
+
+class OpList:
+    """Operations in application order (what opsem.circuit_to_mops reads)."""
+    def __init__(self, ops):
+        self.ops = list(ops)
+
+    def all_operations(self):
+        return iter(self.ops)
+
+
+def sequence_models(cirq, rng):
+    """User noise models given by their meaning `spec(moments, system_qubits) -> one op tree per moment`.  The first four are defined
+    through NoiseModel.noisy_moments and depend on MORE than the single moment (position, the following moment, what came before, pairs
+    of moments); the last two are defined through noisy_moment / noisy_operation (the default delegation chain)."""
+    g0, p = rng.choice([0.07, 0.1, 0.13]), rng.choice([0.1, 0.2, 0.25])
+
+    def drift_gate(k):
+        return cirq.amplitude_damp(round(g0 * (k + 1), 4))
+
+    def drift(moments, qubits):
+        return [[m, cirq.Moment(drift_gate(k).on_each(qubits))] for k, m in enumerate(moments)]
+
+    def idle_next(moments, qubits):
+        out = []
+        for k, m in enumerate(moments):
+            tq = [q for q in qubits if k + 1 == len(moments) or not moments[k + 1].operates_on([q])]
+            out.append([m, cirq.Moment(cirq.bit_flip(p).on_each(tq))] if tq else [m])
+        return out
+
+    def cumulative(moments, qubits):
+        out, n2 = [], 0
+        for m in moments:
+            n2 += sum(1 for op in m if len(op.qubits) >= 2)
+            out.append([m, cirq.Moment(cirq.depolarize(round(min(0.3, 0.03 * (1 + 2 * n2)), 4)).on_each(sorted(m.qubits)))] if len(m) else [m])
+        return out
+
+    def paired(moments, qubits):
+        return [[m, cirq.Moment(cirq.phase_damp(p).on_each(qubits))] if k % 2 == 1 else [m] for k, m in enumerate(moments)]
+
+    def per_moment(m, qubits):
+        idle = [q for q in qubits if not m.operates_on([q])]
+        return [m, cirq.Moment(cirq.phase_flip(p).on_each(idle))] if idle else [m]
+
+    def per_op(op):
+        return [op] + [cirq.asymmetric_depolarize(0.05, p / 2, 0.1).on(q) for q in op.qubits]
+
+    def make(name, spec):
+        class SeqModel(cirq.NoiseModel):
+            def noisy_moments(self, moments, system_qubits):
+                return spec(list(moments), list(system_qubits))
+
+            def __repr__(self):
+                return f'<noise model defined by noisy_moments: {name}>'
+        return SeqModel()
+
+    class MomentModel(cirq.NoiseModel):
+        def noisy_moment(self, moment, system_qubits):
+            return per_moment(moment, list(system_qubits))
+
+        def __repr__(self):
+            return f'<noise model defined by noisy_moment: phase_flip({p}) on the qubits idle in the moment>'
+
+    class OpModel(cirq.NoiseModel):
+        def noisy_operation(self, operation):
+            return per_op(operation)
+
+        def __repr__(self):
+            return f'<noise model defined by noisy_operation: asymmetric_depolarize after every operation>'
+
+    descr = {'drift': f'amplitude_damp({g0}*(k+1)) on every qubit after the moment at position k',
+             'idle-next': f'bit_flip({p}) after a moment on the qubits NOT used by the following moment',
+             'cumulative': 'depolarize(0.03*(1+2*number of two-qubit gates so far)) on the qubits of the moment',
+             'paired': f'phase_damp({p}) on every qubit after every second moment'}
+    models = [(n, descr[n], make(descr[n], sp), sp) for n, sp in (('drift', drift), ('idle-next', idle_next), ('cumulative', cumulative), ('paired', paired))]
+    models.append(('noisy_moment-defined', repr(MomentModel()), MomentModel(), lambda ms, qs: [per_moment(m, qs) for m in ms]))
+    models.append(('noisy_operation-defined', repr(OpModel()), OpModel(), lambda ms, qs: [[per_op(op) for op in m] for m in ms]))
+    return models, drift_gate
+
+
+def sequence_circuits(cirq, rng):
+    """Measurement-free circuits of 3-5 moments on 2 and 3 qubits, every one with idling qubits and a two-qubit gate (fixed shapes)."""
+    a, b, c = cirq.LineQubit.range(3)
+    r = lambda: round(rng.uniform(0.3, 2.8), 3)
+    M = cirq.Moment
+    return [([a, b], cirq.Circuit(M(cirq.X(a), cirq.H(b)), M(cirq.CNOT(b, a)), M(cirq.Y(a) ** 0.5), M(cirq.rx(r()).on(b)))),
+            ([b, a], cirq.Circuit(M(cirq.ry(r()).on(a), cirq.ry(r()).on(b)), M(cirq.rx(r()).on(a)), M(cirq.rx(r()).on(a)), M(cirq.CZ(a, b) ** 0.5))),
+            ([a, b, c], cirq.Circuit(M(cirq.H(a), cirq.ry(r()).on(b), cirq.ry(r()).on(c)), M(cirq.CNOT(a, b)), M(cirq.rx(r()).on(c)),
+                                     M(cirq.CZ(b, c)), M(cirq.H(a)))),
+            ([c, a, b], cirq.Circuit(M(cirq.ry(r()).on(c)), M(cirq.CNOT(c, a), cirq.ry(r()).on(b)), M(cirq.S(b)), M(cirq.ISWAP(a, b) ** 0.5, cirq.T(c))))]
+
+
+def tree_ops(cirq, trees):
+    """The operations of the circuit a noise model produces (one op tree per moment), in application order."""
+    return [op for t in trees for op in cirq.Circuit(t).all_operations()]
+
+
+def per_qubit_sequences(cirq, ops, qs):
+    return {q: [op for op in ops if q in op.qubits] for q in qs}
+
+
+def noise_entries(cirq, c, model, qs):
+    dm = lambda **kw: cirq.DensityMatrixSimulator(dtype=np.complex128, **kw)
+    return [('simulate(circuit.with_noise(model))', lambda: dm().simulate(c.with_noise(model), qubit_order=qs).final_density_matrix),
+            ('DensityMatrixSimulator(noise=model).simulate(circuit)', lambda: dm(noise=model).simulate(c, qubit_order=qs).final_density_matrix),
+            ('cirq.final_density_matrix(circuit, noise=model)', lambda: cirq.final_density_matrix(c, noise=model, qubit_order=qs, dtype=np.complex128))]
+
+
+def produced_circuit_case(ctx, cirq, checks, c, qs, model, mname, mdesc, ref_ops):
+    """Every way of simulating `c` under `model` = the reference semantics of `ref_ops` (the operations of the circuit the noise model
+    produces for the WHOLE moment sequence, in order); Circuit.with_noise is that circuit (same operations in the same order on every qubit)."""
+    desc = f'model {mdesc}; circuit {flat(c)}'
+    rep = dict(kind='noise-sequence', model=mdesc, circuit=repr(c), qubit_order=repr(qs))
+    try:
+        noisy = c.with_noise(model)
+        if per_qubit_sequences(cirq, list(noisy.all_operations()), qs) != per_qubit_sequences(cirq, ref_ops, qs):
+            ctx.violation(f'noise-sequence:with_noise-structure:{mname}',
+                          f'circuit.with_noise(model) is not the circuit the noise model produces for the circuit (model.noisy_moments on the whole moment '
+                          f'sequence and the sorted qubits): some qubit sees different operations; {desc}; got {flat(noisy)}', rep)
+        mops, _, _ = opsem.circuit_to_mops(cirq, OpList(ref_ops), qs)
+    except opsem.Unsupported:
+        return
+    except Exception as e:
+        ctx.violation(f'noise-sequence:raises:{mname}', f'with_noise raised {type(e).__name__}: {e}; {desc}', rep)
+        return
+    dim = 2 ** len(qs)
+    model_term = f'(dexec_rho FOps {gates.nlist([2] * len(qs))} {mops} {gates.fvec(np.eye(dim)[0])})'
+    for entry, fn in noise_entries(cirq, c, model, qs):
+        try:
+            rho = np.asarray(fn())
+        except Exception as e:
+            ctx.violation(f'noise-sequence:{entry}:raises:{mname}', f'{entry} raised {type(e).__name__}: {e}; {desc}', dict(entry=entry, **rep))
+            continue
+        ctx.count('noise-sequence:' + entry, [mdesc, flat(c), entry], len(c) >= 2, sample=dict(model=mdesc, circuit=flat(c)[:300], entry=entry))
+        if not valid_density(rho):
+            ctx.violation(f'noise-sequence:{entry}:invalid-density:{mname}', f'{entry}: the result is not a valid density matrix; {desc}', dict(entry=entry, **rep))
+            continue
+        checks.append(('noise-sequence:' + entry, f'fcl_close {TOL} {model_term} {gates.fvec(rho.reshape(-1))}',
+                       f'{entry} differs from applying, in order, the channels of the circuit the noise model produces for the whole moment sequence; {desc}',
+                       dict(signature=f'noise-sequence:{entry}:{mname}', entry=entry, **{k: v for k, v in rep.items() if k != 'kind'})))
+
+
+def sequence_noise_grid(ctx, cirq, checks, reps):
+    """Noise models whose output depends on the whole sequence of moments (user models through noisy_moments; thermal and
+    NoiseProperties-derived library models, which re-derive their system qubits from the moments they are handed) on fixed circuits with
+    idling qubits, through Circuit.with_noise, DensityMatrixSimulator(noise=...) and cirq.final_density_matrix(noise=...).  References:
+    the model's own meaning applied to the whole circuit (Gallina reference semantics), the Gallina list model of the position-dependent
+    model (structure), and for thermal models the rate equation of the documented Lindbladians on circuits of X/Z gates (populations)."""
+    rng = ctx.rng
+    for rep in range(reps):
+        models, drift_gate = sequence_models(cirq, rng)
+        for qs, c in sequence_circuits(cirq, rng):
+            system = sorted(c.all_qubits())
+            for mname, mdesc, model, spec in models:
+                produced_circuit_case(ctx, cirq, checks, c, qs, model, mname, mdesc, tree_ops(cirq, spec(list(c.moments), system)))
+            # structure of the position-dependent model against Sim/NoiseSeq.v
+            model = models[0][2]
+            ids = {}
+            enc = ['[' + '; '.join(f'({ids.setdefault(op, len(ids))}%nat, false)' for op in m) + ']' for m in c]
+            level = {drift_gate(k): k for k in range(len(c) + 1)}
+            qid = {q: i for i, q in enumerate(system)}
+            out = []
+            for m in c.with_noise(model):
+                out.append('[' + '; '.join(f'({ids[op]}%nat, false)' if op in ids else f'({1000 + 100 * level.get(op.gate, 99) + qid[op.qubits[0]]}%nat, true)'
+                                           for op in m) + ']')
+            ctx.count('noise-sequence:structure', [flat(c)], True, sample=dict(circuit=flat(c)[:300], model=models[0][1]))
+            checks.append(('noise-sequence:structure',
+                           f'list_eqb nmoment_eqb (seq_noisy_moments {gates.nlist(range(len(system)))} [{"; ".join(enc)}]) [{"; ".join(out)}]',
+                           f'circuit.with_noise(model) for the position-dependent model ({models[0][1]}) is not [moment k, noise moment of level k] for '
+                           f'k = 0, 1, ...: got {flat(c.with_noise(model))} for circuit {flat(c)}',
+                           dict(signature='noise-sequence:with_noise-structure:drift', circuit=repr(c), model=models[0][1])))
+        thermal_grid(ctx, cirq, checks, rng)
+
+
+def thermal_grid(ctx, cirq, checks, rng):
+    a, b, c3 = cirq.LineQubit.range(3)
+    M = cirq.Moment
+    tx, tz = rng.choice([60.0, 100.0, 140.0]), rng.choice([180.0, 250.0])
+    cool, heat, deph = rng.choice([1.5e-3, 2e-3, 3e-3]), rng.choice([0.0, 4e-4]), rng.choice([5e-4, 1e-3])
+    durations = {cirq.XPowGate: tx, cirq.ZPowGate: tz, cirq.HPowGate: tx, cirq.CZPowGate: tz}
+
+    def thermal(qubits, tagged):
+        return cirq.devices.ThermalNoiseModel(qubits=set(qubits), gate_durations_ns=dict(durations), heat_rate_GHz=heat, cool_rate_GHz=cool,
+                                              dephase_rate_GHz=deph, require_physical_tag=tagged)
+
+    def wrapped(qubits):
+        class Props(cirq.devices.NoiseProperties):
+            def build_noise_models(self):
+                return [thermal(qubits, True)]
+        return cirq.devices.NoiseModelFromNoiseProperties(Props())
+
+    pop_circuits = [([a, b], cirq.Circuit(M(cirq.X(a), cirq.X(b)), M(cirq.X(a)), M(cirq.X(a)))),
+                    ([a, b, c3], cirq.Circuit(M(cirq.X(b), cirq.X(c3)), M(cirq.Z(a)), M(cirq.X(a), cirq.X(c3)), M(cirq.X(b)), M(cirq.Z(c3), cirq.X(a)))),
+                    ([b, a], cirq.Circuit(M(cirq.X(a)), M(cirq.X(b)), M(cirq.X(a)), M(cirq.X(b))))]
+    general = [([a, b], cirq.Circuit(M(cirq.H(a), cirq.X(b)), M(cirq.CZ(a, b)), M(cirq.H(a)), M(cirq.H(a)))),
+               ([a, b, c3], cirq.Circuit(M(cirq.H(a), cirq.H(b), cirq.X(c3)), M(cirq.CZ(a, b)), M(cirq.X(a) ** 0.5), M(cirq.CZ(b, c3)), M(cirq.H(b))))]
+    mtext = f'gate durations X/H {tx} ns, Z/CZ {tz} ns; cool {cool}, heat {heat}, dephase {deph} per ns'
+    for qs, c in pop_circuits + general:
+        system = sorted(c.all_qubits())
+        for mname, model in (('ThermalNoiseModel', thermal(system, False)), ('NoiseModelFromNoiseProperties[thermal]', wrapped(system))):
+            mdesc = f'{mname} ({mtext})'
+            # the circuit the model produces for the whole moment sequence (the entry point the simulators use)
+            produced_circuit_case(ctx, cirq, checks, c, qs, model, mname, mdesc, tree_ops(cirq, model.noisy_moments(list(c.moments), system)))
+            if not any(c is pc for _, pc in pop_circuits):
+                continue
+            # rate equation of the documented Lindbladians (cooling sqrt(gc) a, heating sqrt(gh) a^dagger; dephasing leaves populations):
+            # during a moment of duration t every system qubit's excited population relaxes to gh/(gc+gh) with factor exp(-(gc+gh) t); X swaps.
+            want = {}
+            for q in system:
+                p1 = 0.0
+                for m in c:
+                    op = m.operation_at(q)
+                    if op is not None and isinstance(op.gate, cirq.XPowGate):
+                        p1 = 1 - p1
+                    t = max(next(d for k, d in durations.items() if isinstance(o.gate, k)) for o in m)
+                    peq = heat / (cool + heat)
+                    p1 = peq + (p1 - peq) * math.exp(-(cool + heat) * t)
+                want[q] = p1
+            for entry, fn in noise_entries(cirq, c, model, qs):
+                try:
+                    rho = np.asarray(fn())
+                except Exception:
+                    continue   # reported by produced_circuit_case
+                diag = np.real(np.diag(rho)).reshape((2,) * len(qs))
+                got = {q: float(diag.sum(axis=tuple(i for i in range(len(qs)) if i != qs.index(q)))[1]) for q in system}
+                ctx.count('noise-sequence:thermal-populations', [mdesc, flat(c), entry], True, sample=dict(model=mdesc, circuit=flat(c)[:300], entry=entry))
+                worst = max(system, key=lambda q: abs(got[q] - want[q]))
+                if abs(got[worst] - want[worst]) > 1e-6:
+                    ctx.violation(f'noise-sequence:{entry}:thermal-populations:{mname}',
+                                  f'{entry}: excited population of {worst!r} is {got[worst]:.6f}, the rate equation of the thermal model over all moment '
+                                  f'durations (idle moments included) gives {want[worst]:.6f}; model {mdesc}; circuit {flat(c)}',
+                                  dict(kind='noise-sequence', entry=entry, model=mdesc, circuit=repr(c), qubit_order=repr(qs),
+                                       expected={repr(q): want[q] for q in system}, got={repr(q): got[q] for q in system}))
 
 
 def evaluate(ctx, checks):
